@@ -407,11 +407,15 @@ def structure_function_vk(seperation, r0, L0):
         ndarray, float: Structure function for seperation(s)
     """
     ## theoretical structure function
-    D_vk = (    0.17253 * (L0 / (r0)) ** (5. / 3.)
-                * (1 - 2 * numpy.pi ** (5. / 6.) * ((seperation) / L0) ** (5. / 6.)
-                / scipy.special.gamma(5. / 6.)
-                * scipy.special.kv(5. / 6., (2 * numpy.pi * seperation) / L0))
-            )
+    with numpy.errstate(invalid="ignore"):
+        D_vk = (    0.17253 * (L0 / (r0)) ** (5. / 3.)
+                    * (1 - 2 * numpy.pi ** (5. / 6.) * ((seperation) / L0) ** (5. / 6.)
+                    / scipy.special.gamma(5. / 6.)
+                    * scipy.special.kv(5. / 6., (2 * numpy.pi * seperation) / L0))
+                )
+
+    # At zero separation the Bessel term is 0 * inf = nan; the structure function there is 0
+    D_vk = numpy.where(numpy.equal(seperation, 0), 0., D_vk)[()]
 
     return D_vk
 
